@@ -203,6 +203,29 @@ def run(ctx):
                  % (','.join(NAMES), alpha, mg, mw, 2 if quick else 3, syms2))
     ctx.sample({'got': ".a", 'want': '. ...', 'impl_bits_over_32_flag_settings': impl_bits('.a', '. ...')})
 
+    # ---- wildcard stratum: wants built from 2..3 literal pieces around '...' ------------
+    pieces = ['', 'a', 'b', 'ab', 'a b', 'b\na']
+    seps = ['...', ' ... ', '...\n']
+    wants_w = []
+    for n_mark in (1, 2, 3):
+        for ps in itertools.product(pieces, repeat=n_mark + 1):
+            for sp in (seps if not quick else seps[:2]):
+                wants_w.append(sp.join(ps))
+    wants_w = sorted(set(wants_w))
+    gots_w = list(common.iter_strings('ab \n', 3 if quick else 4)) + ['ab ab', 'a b a b', 'abab', 'b\na\nb\na', 'ab\nab']
+    if quick:
+        rngw = ctx.rng('wild')
+        wants_w = rngw.sample(wants_w, min(len(wants_w), 500))
+    wp = [(g, w) for w in wants_w for g in gots_w]
+    chunks = [wp[i:i + 1500] for i in range(0, len(wp), 1500)]
+    results = [r for ch in common.pmap(_pairs_worker, chunks) for r in ch]
+    analyse(ctx, wp, results, 'wildcards')
+    ctx.evaluations += len(wp) * 32
+    ctx.nontrivial += sum(1 for (g, w) in set(wp) if w and g != w) * 32
+    ctx.count('wildcard_pairs', len(wp))
+    ctx.add_rule('wants with 1..3 wildcards built from %d literal pieces and %d separator spellings x every got over {a,b,space,newline} up to length %d (pieces that recur in the suffix, overlapping candidates)'
+                 % (len(pieces), len(seps), 3 if quick else 4))
+
     # ---- random structured pairs -------------------------------------------
     rng = ctx.rng('structured')
     n = 3000 if quick else 40000
